@@ -15,7 +15,7 @@ def sh(cmd, cwd=None, timeout=1800):
 
 def notes_section(notes, which):
     # best effort: the part of notes.md that talks about this change
-    m = re.split(r"(?im)^#+\s*(?:change\s*)?([ABC])\b.*$", notes)
+    m = re.split(r"(?im)^#+\s*(?:change\s*)?(M[1-9]|[ABCD])\b.*$", notes)
     for i in range(1, len(m) - 1, 2):
         if m[i].upper() == which:
             return m[i + 1].strip()[:1500]
@@ -41,11 +41,11 @@ def main():
                 print(pid, "no output dir")
                 continue
             notes = open(os.path.join(src, "notes.md")).read() if os.path.exists(os.path.join(src, "notes.md")) else ""
-            for which in "ABCD":
+            for which in (["M%d" % k for k in range(1, 10)] if rnd == "5" else list("ABCD")):
                 patch = os.path.join(src, f"{which}.patch")
                 demos = [f for f in os.listdir(src) if f.lower().startswith(f"demo_{which.lower()}")]
                 if not os.path.exists(patch) or not demos:
-                    print(pid, which, "missing patch or demo")
+                    if rnd != "5" or os.path.exists(patch): print(pid, which, "missing patch or demo")
                     continue
                 demos.sort(key=lambda f: (not f.endswith(".sh"), f))  # a shell driver, when present, is the demonstration
                 demo = os.path.join(src, demos[0])
